@@ -230,8 +230,7 @@ package stage
 // the name of a staged file is its path below the stage root with exactly the given extension taken
 // off the end (Recover and Scan find files through their companions: <name>.cmp -> <name>)
 //@ func (*Stage).pathToName
-//@   requires len(path) > len(s.rootDir)
-//@   ensures extension-stripped-exactly: (stripExt != "" && hassuffix(path, stripExt) && len(path) >= len(s.rootDir) + 1 + len(stripExt) ==> hassuffix(path, name + stripExt)) && (stripExt == "" ==> hassuffix(path, name))
+//@   ensures extension-stripped-exactly: len(path) > len(s.rootDir) ==> (stripExt != "" && hassuffix(path, stripExt) && len(path) >= len(s.rootDir) + 1 + len(stripExt) ==> hassuffix(path, name + stripExt)) && (stripExt == "" ==> hassuffix(path, name))
 //@   modifies nothing
 //@ func (*Stage).toCache
 //@   modifies fields(file), allof(Stage), entries(s.cache), allof(finalFile)
